@@ -151,6 +151,9 @@ class Auer(PALAlgorithm):
         # design space.
 
         self.beta_t = self.compute_beta()
+        # Row of beta_t belonging to each design (beta_t is built for S as it is now; S
+        # shrinks during the round, so positions in S must not be used to index it later).
+        self.beta_row = {pt: pt_i for pt_i, pt in enumerate(self.S)}
 
         self.model.track_variances = self.use_empirical_beta and False  # always False
         self.design_space.update(self.model, self.beta_t, list(self.S))
@@ -163,13 +166,13 @@ class Auer(PALAlgorithm):
         to_be_discarded = []
         for pt_i, pt in enumerate(self.S):
             pt_conf = self.design_space.confidence_regions[pt]
-            pt_beta = self.beta_t[pt_i]
+            pt_beta = self.beta_t[self.beta_row[pt]]
             for pt_prime_i, pt_prime in enumerate(self.S):
                 if pt_prime == pt:
                     continue
 
                 pt_p_conf = self.design_space.confidence_regions[pt_prime]
-                pt_p_beta = self.beta_t[pt_prime_i]
+                pt_p_beta = self.beta_t[self.beta_row[pt_prime]]
 
                 beta = pt_beta + pt_p_beta
                 if np.all(self.small_m(pt_conf.center, pt_p_conf.center) > beta):
@@ -188,13 +191,13 @@ class Auer(PALAlgorithm):
         P1_pts = []
         for pt_i, pt in enumerate(self.S):
             pt_conf = self.design_space.confidence_regions[pt]
-            pt_beta = self.beta_t[pt_i]
+            pt_beta = self.beta_t[self.beta_row[pt]]
             for pt_prime_i, pt_prime in enumerate(self.S):
                 if pt_prime == pt:
                     continue
 
                 pt_p_conf = self.design_space.confidence_regions[pt_prime]
-                pt_p_beta = self.beta_t[pt_prime_i]
+                pt_p_beta = self.beta_t[self.beta_row[pt_prime]]
 
                 beta = pt_beta + pt_p_beta
                 if np.all(self.big_m(pt_conf.center, pt_p_conf.center) < beta):
@@ -206,13 +209,13 @@ class Auer(PALAlgorithm):
         new_pareto_pts = []
         for p1_pt_i, p1_pt in zip(P1_pt_is, P1_pts):
             p1_pt_conf = self.design_space.confidence_regions[p1_pt]
-            p1_pt_beta = self.beta_t[p1_pt_i]
+            p1_pt_beta = self.beta_t[self.beta_row[p1_pt]]
             for pt_i, pt in enumerate(self.S):
                 if pt in P1_pts:
                     continue
 
                 pt_conf = self.design_space.confidence_regions[pt]
-                pt_beta = self.beta_t[pt_i]
+                pt_beta = self.beta_t[self.beta_row[pt]]
 
                 beta = p1_pt_beta + pt_beta
                 if np.all(self.big_m(pt_conf.center, p1_pt_conf.center) <= beta):
